@@ -24,8 +24,10 @@ Proved on the parser model:
    `lexFrom_concat`), with `accepted_ends_msgEnd` (Proofs/ParserEnds: an accepted stream ends with a
    message terminator, so the lexer is back in the header state) and with the fact that an accepted
    text holds no lexing error (the error token ends the stream and is no terminator).
-Not covered by a theorem: a first text whose last byte is not a line break (joined "by nothing"
-directly behind the terminator, or ending in a comment that the second text would continue) - for
+`texts_independent_blank`: the same behind ANY blank - the first text (accepted when closed by a
+line break, no comment open at its end) followed by a space, tab, CR or line break and then any text.
+Not covered by a theorem: a first text joined "by nothing" directly behind its terminator (or
+ending in a comment that the second text would continue) - for
 printed forms `printed_texts_independent` covers it; in general it is decided on the real code by
 the concatenation suite (deep equality with each text parsed alone, every separator kind) and the
 model is compared on every concatenated text.
@@ -36,6 +38,7 @@ import SecsModel.Proofs.LexPrintedItems
 import SecsModel.Proofs.ParserConcat
 import SecsModel.Proofs.LexConcat
 import SecsModel.Proofs.ParserEnds
+import SecsModel.Proofs.LexBlankConcat
 import SecsModel.Generated.Facts
 namespace Secs.C19
 open Secs Secs.Sml Secs.Lex
@@ -318,6 +321,95 @@ theorem texts_independent (ual : List Nat) (x b : Bytes) (hx : EndsLF x) (ms1 : 
     | nil => simp [hw1]
     | cons e es => simp [hw1]
 
+
+/-- an accepted text holds no lexing error: the error token would end the stream, and an accepted
+stream ends with a message terminator -/
+theorem accepted_no_lex_error (ual : List Nat) (x : Bytes) (ms1 : List Msg) (w1 : List Diag)
+    (hP : parseToks (((lexFrom ual .header x).map eraseT).filter nc) = .done ms1 [] w1) :
+    ∀ t ∈ (lexFrom ual .header x).map eraseT, t.kind ≠ .error := by
+  obtain ⟨ts, last, e1, e2, e3⟩ := lexFuel_shape ual (x.length + 1) .header ⟨x, 1, []⟩ (by simp)
+  have e1' : lexFrom ual .header x = ts ++ [last] := e1
+  rcases e3 with e3 | e3
+  · intro t ht
+    rw [e1'] at ht
+    simp only [List.map_append, List.map_cons, List.map_nil, List.mem_append, List.mem_map, List.mem_singleton] at ht
+    rcases ht with ⟨t0, ht0, rfl⟩ | rfl
+    · exact (e2 t0 ht0).2
+    · rw [eraseT_kind, e3]; decide
+  · exfalso
+    rw [e1'] at hP
+    have hk : nc (eraseT last) = true := by
+      show (last.kind != Kind.comment) = true
+      rw [e3]; decide
+    simp only [List.map_append, List.map_cons, List.map_nil, List.filter_append, List.filter_cons, hk, if_true, List.filter_nil] at hP
+    have hT : ∀ t ∈ (ts.map eraseT).filter nc ++ [eraseT last], t.kind ≠ .eof := by
+      intro t ht
+      rcases List.mem_append.mp ht with ht | ht
+      · obtain ⟨t0, ht0, rfl⟩ := List.mem_map.mp (List.mem_filter.mp ht).1
+        exact (e2 t0 ht0).1
+      · rw [List.mem_singleton.mp ht, eraseT_kind, e3]; decide
+    rcases accepted_ends_msgEnd _ hT ms1 w1 hP with hnil | ⟨pre, d, hd, hdk⟩
+    · simp at hnil
+    · have := List.append_inj' hd rfl
+      have hd2 : eraseT last = d := by simpa using this.2
+      rw [← hd2, eraseT_kind, e3] at hdk
+      cases hdk
+
+/-- the common core: the first text `X` is accepted, its tokens are `ts`, and the tokens of the
+whole text `XB` are `ts` followed by the tokens of `b` lexed in the mode `ts` leaves -/
+theorem independent_core (ual : List Nat) (X XB b : Bytes) (ts : List Tok) (ms1 : List Msg) (ws1 : List String)
+    (h : (parse ual X).content = some (ms1, [], ws1))
+    (i1 : (lexFrom ual .header X).map eraseT = ts ++ [Lex.eofTok])
+    (i2 : (lexFrom ual .header XB).map eraseT = ts ++ (lexFrom ual (modeOf .header ts) b).map eraseT)
+    (i3 : ∀ t ∈ ts, t.kind ≠ .eof ∧ t.kind ≠ .error) :
+    (parse ual XB).content =
+      match (parse ual b).content with
+      | none => none
+      | some (ms2, es, ws2) => if es.isEmpty then some (ms1 ++ ms2, [], ws1 ++ ws2) else some ([], es, ws1 ++ ws2) := by
+  have hx2 : (parse ual XB).content = (parseToks (((lexFrom ual .header XB).map eraseT).filter nc)).content := by
+    rw [parse_eq_lexFrom]; exact content_erased _
+  have hb2 : (parse ual b).content = (parseToks (((lexFrom ual .header b).map eraseT).filter nc)).content := by
+    rw [parse_eq_lexFrom]; exact content_erased _
+  rw [parse_eq_lexFrom, content_erased] at h
+  rw [hx2, hb2]
+  obtain ⟨w1, hP, hw1⟩ := content_done _ _ _ h
+  have hke : nc Lex.eofTok = true := by decide
+  have hA : ∀ t ∈ ts.filter nc, t.kind ≠ .eof := fun t ht => (i3 t (List.mem_filter.mp ht).1).1
+  rw [i1] at hP
+  simp only [List.filter_append, List.filter_cons, hke, if_true, List.filter_nil] at hP
+  have hmode : modeOf .header ts = .header := by
+    rw [← modeOf_filter]
+    rcases accepted_ends_msgEnd_eof (ts.filter nc) Lex.eofTok rfl hA ms1 w1 hP with hnil | ⟨pre, d, hd, hdk⟩
+    · have : ts.filter (fun t => t.kind != .comment) = [] := hnil
+      rw [this]; rfl
+    · have : ts.filter (fun t => t.kind != .comment) = pre ++ [d] := hd
+      rw [this]; exact modeOf_ends_msgEnd _ _ _ hdk
+  rw [i2, hmode, List.filter_append]
+  rw [tokens_independent (ts.filter nc) _ Lex.eofTok rfl hA ms1 w1 hP]
+  cases parseToks (((lexFrom ual .header b).map eraseT).filter nc) with
+  | panic => rfl
+  | done ms2 errs w2 =>
+    simp only [Outcome.content]
+    cases errs with
+    | nil => simp [hw1]
+    | cons e es => simp [hw1]
+
+/-- **Independence behind any blank.** `p`, closed by a line break, is an accepted text, and no
+comment is open at its end. Then `p` followed by ANY blank - space, tab, CR or line break - and any
+text `b` parses to the messages of `p` followed by exactly what `b` gives alone. -/
+theorem texts_independent_blank (ual : List Nat) (p b : Bytes) (w : Nat) (hw : isBlank w = true)
+    (hC : w = 10 ∨ ∀ s, s <:+ p → startsWith [47, 47] s = true → 10 ∈ s)
+    (ms1 : List Msg) (ws1 : List String) (h : (parse ual (p ++ [10])).content = some (ms1, [], ws1)) :
+    (parse ual (p ++ w :: b)).content =
+      match (parse ual b).content with
+      | none => none
+      | some (ms2, es, ws2) => if es.isEmpty then some (ms1 ++ ms2, [], ws1 ++ ws2) else some ([], es, ws1 ++ ws2) := by
+  have h' := h
+  rw [parse_eq_lexFrom, content_erased] at h'
+  obtain ⟨w1, hP, _⟩ := content_done _ _ _ h'
+  have hne := accepted_no_lex_error ual (p ++ [10]) ms1 w1 hP
+  obtain ⟨ts, i1, i2, i3⟩ := lexFrom_blank ual b w hw p.length p .header (Nat.le_refl _) hne hC
+  exact independent_core ual (p ++ [10]) (p ++ w :: b) b ts ms1 ws1 h i1 i2 i3
 
 /-- both texts accepted: the concatenation is accepted and holds the messages of both, in order -/
 theorem texts_independent_accepted (ual : List Nat) (x b : Bytes) (hx : EndsLF x) (ms1 ms2 : List Msg) (ws1 ws2 : List String)
